@@ -1,4 +1,5 @@
 import Netpoll.Buf.Spec
+import Netpoll.Gen.Consts
 /-
 Model of nocopy_readwriter.go (zcReader, zcWriter, ioReader, ioWriter) over the C01 *spec* queue `Q`
 (justified by the C01 refinement theorem: inside `Contract`, a LinkBuffer behaves as `specStep`).
@@ -71,9 +72,10 @@ def ZCReader.round [DecidableEq α] [Inhabited α] (block4k : Nat) (r : ZCReader
   let r3 := (r2.call .flush).1
   ({ r3 with src := src' }, err)
 
-/-- `waitRead(n)`: `for buf.Len() < n { err = fill(n); if err != nil { return err } }`; `fill` runs up to
-maxReadCycle rounds while `Len < n && err == nil`, so the two nested loops are one loop over rounds.
-`fuel` bounds the rounds (script length + 1 suffices: an exhausted source returns EOF). -/
+/-- The two nested loops of `waitRead` / `fill` flattened into one loop over rounds: up to `fuel` rounds while
+`Len < n` and no round reported an error. With `fuel = maxReadCycle` this IS `fill` (below); with
+`script.length + 1` rounds of fuel it is what the nested loops `waitReadLoop` compute (`AdapterLemmas.waitReadLoop_eq`:
+the proofs work on this flat form). -/
 def ZCReader.waitRead [DecidableEq α] [Inhabited α] (block4k : Nat) : Nat → ZCReader α → Int → ZCReader α × Option AErr
   | 0, r, _ => (r, none)
   | fuel + 1, r, n =>
@@ -82,6 +84,23 @@ def ZCReader.waitRead [DecidableEq α] [Inhabited α] (block4k : Nat) : Nat → 
       match r.round block4k with
       | (r', some e) => (r', some e)
       | (r', none) => ZCReader.waitRead block4k fuel r' n
+
+/-- `fill(n)`: `for i := 0; i < maxReadCycle && buf.Len() < n && err == nil; i++ { round }; return err` - at most
+`cycle` source reads per call; it returns nil with fewer than `n` bytes buffered when the source needed more. -/
+def ZCReader.fill [DecidableEq α] [Inhabited α] (block4k cycle : Nat) (r : ZCReader α) (n : Int) : ZCReader α × Option AErr :=
+  r.waitRead block4k cycle n
+
+/-- `waitRead(n)` as written: `for buf.Len() < n { err = fill(n); if err != nil { return err } }; return nil` - the outer
+loop re-arms `fill` until the request is buffered or the source reports an error. `fuel` bounds the outer iterations
+(script length + 1 suffices when `cycle ≥ 1`: every `fill` consumes a script entry or meets the exhausted script's EOF). -/
+def ZCReader.waitReadLoop [DecidableEq α] [Inhabited α] (block4k cycle : Nat) : Nat → ZCReader α → Int → ZCReader α × Option AErr
+  | 0, r, _ => (r, none)
+  | fuel + 1, r, n =>
+    if (r.q.len : Int) ≥ n then (r, none)
+    else
+      match r.fill block4k cycle n with
+      | (r', some e) => (r', some e)
+      | (r', none) => ZCReader.waitReadLoop block4k cycle fuel r' n
 
 def fuelOf (r : ZCReader α) : Nat := r.src.script.length + 1
 
@@ -110,15 +129,15 @@ def ZCReader.bufOp [DecidableEq α] (r : ZCReader α) (op : Op α) (consumes : B
 
 def ZCReader.step [DecidableEq α] [Inhabited α] (block4k : Nat) (r : ZCReader α) : ROp α → ZCReader α × ARes α
   | .next n =>
-    match r.waitRead block4k (fuelOf r) n with
+    match r.waitReadLoop block4k Gen.c_maxReadCycle (fuelOf r) n with
     | (r, some e) => (r, .fail e)
     | (r, none) => r.bufOp (.next n) true
   | .peek n =>
-    match r.waitRead block4k (fuelOf r) n with
+    match r.waitReadLoop block4k Gen.c_maxReadCycle (fuelOf r) n with
     | (r, some e) => (r, .fail e)
     | (r, none) => r.bufOp (.peek n) false
   | .skip n =>
-    match r.waitRead block4k (fuelOf r) n with
+    match r.waitReadLoop block4k Gen.c_maxReadCycle (fuelOf r) n with
     | (r, some e) => (r, .fail e)
     | (r, none) =>
       -- Skip returns no bytes; the skipped bytes leave the stream
@@ -126,11 +145,11 @@ def ZCReader.step [DecidableEq α] [Inhabited α] (block4k : Nat) (r : ZCReader 
       let (r', res) := r.bufOp (.skip n) false
       ({ r' with delivered := r'.delivered ++ skipped }, res)
   | .readBinary n =>
-    match r.waitRead block4k (fuelOf r) n with
+    match r.waitReadLoop block4k Gen.c_maxReadCycle (fuelOf r) n with
     | (r, some e) => (r, .fail e)
     | (r, none) => r.bufOp (.readBinary n) true
   | .readByte =>
-    match r.waitRead block4k (fuelOf r) 1 with
+    match r.waitReadLoop block4k Gen.c_maxReadCycle (fuelOf r) 1 with
     | (r, some e) => (r, .fail e)
     | (r, none) => r.bufOp .readByte true
   | .until c => r.bufOp (.until c) true     -- no waitRead: only what is already buffered is searched
